@@ -65,7 +65,9 @@ func StringEscape(a String, ascii bool) string {
 			}
 			out.WriteRune(c)
 		case c < 0x100:
-			if ascii || strconv.IsPrint(c) {
+			// in ascii mode the input is already a repr so its
+			// ASCII is passed through, anything else is escaped
+			if (ascii && c < 0x7F) || (!ascii && strconv.IsPrint(c)) {
 				out.WriteRune(c)
 			} else {
 				fmt.Fprintf(&out, "\\x%02x", c)
